@@ -2,6 +2,7 @@ package main
 
 import (
 	"fmt"
+	"strings"
 	"go/token"
 	"go/types"
 
@@ -355,7 +356,9 @@ func init() {
 	}
 	s["crypto/subtle.ConstantTimeCompare"] = func(ex *Exec, fr *Frame, st *State, c *callCtx) Val {
 		a, b := c.args[0], c.args[1]
+		ex.cryptoEvent(fr, st, "ConstantTimeCompare", c)
 		r := ex.fresh("ctcmp", sBool)
+		ex.ghostVars["ctcmp_ok"] = boolVal(r)
 		ex.assume("true", implies(r, eq(a.L[2], b.L[2])))
 		return intVal(ite(r, bvLit(1, 64), bvLit(0, 64)))
 	}
@@ -443,6 +446,79 @@ func init() {
 		tag := fmt.Sprint(ex.typeTag("T:*chacha20poly1305.chacha20poly1305"))
 		return tup(Val{T: c.results().At(0).Type(), L: []string{ite(okc, tag, "0"), ite(okc, ref, "0")}},
 			Val{T: errType(), L: []string{ite(okc, "0", e.L[0]), ite(okc, "0", e.L[1])}})
+	}
+
+	// ---- codecs: deterministic, do not panic, do not write their input (trusted) ----
+	unmarshal := func(ex *Exec, fr *Frame, st *State, c *callCtx) Val {
+		// the target (second argument, a pointer boxed in an interface) is overwritten with unconstrained content
+		if len(c.argVals) >= 2 {
+			if mi, ok := c.argVals[1].(*ssa.MakeInterface); ok {
+				if pt, ok := mi.X.Type().Underlying().(*types.Pointer); ok {
+					ref := ex.value(fr, st, mi.X).L[0]
+					ex.storeDecoded(st, pt.Elem(), ref)
+				}
+			} else {
+				ex.note("decode into a value of unknown static type: target left unchanged")
+			}
+		}
+		return ex.maybeErr(st, "decode")
+	}
+	s["github.com/fxamacker/cbor/v2.Unmarshal"] = unmarshal
+	s["encoding/json.Unmarshal"] = unmarshal
+	marshal := func(ex *Exec, fr *Frame, st *State, c *callCtx) Val {
+		base := ex.newRef(st, "encoded")
+		ex.havocMemBase(st, types.Typ[types.Uint8], base)
+		ln := ex.fresh("enclen", bv64)
+		ex.assume("true", and(nonNeg(ln), app("bvult", ln, "#x0000000010000000")))
+		isErr := ex.fresh("fails.encode", sBool)
+		e := ex.freshErr(st, "encode")
+		return tup(Val{T: c.results().At(0).Type(), L: []string{ite(isErr, "0", base), bvLit(0, 64), ite(isErr, bvLit(0, 64), ln), ite(isErr, bvLit(0, 64), ln)}},
+			Val{T: errType(), L: []string{ite(isErr, e.L[0], "0"), ite(isErr, e.L[1], "0")}})
+	}
+	s["github.com/fxamacker/cbor/v2.Marshal"] = marshal
+	s["encoding/json.Marshal"] = marshal
+	s["encoding/json.MarshalIndent"] = marshal
+
+	// ---- crop hashes (github.com/mycoria/crop) ----
+	hashValid := func(ex *Exec, h string) string {
+		return app(ex.declFun("uf|hashvalid", []string{sStr}, sBool), h)
+	}
+	s["(github.com/mycoria/crop.Hash).IsValid"] = func(ex *Exec, fr *Frame, st *State, c *callCtx) Val {
+		return boolV(hashValid(ex, c.args[0].L[0]))
+	}
+	s["(github.com/mycoria/crop.Hash).New"] = func(ex *Exec, fr *Frame, st *State, c *callCtx) Val {
+		// returns nil for unknown hash names
+		ok := hashValid(ex, c.args[0].L[0])
+		ref := ex.newRef(st, "hasher")
+		tag := fmt.Sprint(ex.typeTag("T:hash.Hash-impl"))
+		return Val{T: c.results().At(0).Type(), L: []string{ite(ok, tag, "0"), ite(ok, ref, "0")}}
+	}
+	s["hash.Hash.Write"] = func(ex *Exec, fr *Frame, st *State, c *callCtx) Val {
+		ex.cryptoEvent(fr, st, "hash.Write", c)
+		return tup(intVal(c.args[0].L[2]), nilErr())
+	}
+	s["hash.Hash.Reset"] = func(ex *Exec, fr *Frame, st *State, c *callCtx) Val { return Val{T: types.NewTuple()} }
+	s["hash.Hash.Sum"] = func(ex *Exec, fr *Frame, st *State, c *callCtx) Val {
+		// appends the digest to the argument: a new buffer unless the capacity suffices (both are havoced here)
+		base := ex.newRef(st, "digest")
+		ex.havocMemBase(st, types.Typ[types.Uint8], base)
+		ln := ex.fresh("digestlen", bv64)
+		ex.assume("true", and(app("bvsge", ln, c.args[0].L[2]), app("bvult", ln, "#x0000000000010000")))
+		return Val{T: c.results().At(0).Type(), L: []string{base, bvLit(0, 64), ln, ln}}
+	}
+	s["(net/netip.Addr).AsSlice"] = func(ex *Exec, fr *Frame, st *State, c *callCtx) Val {
+		a := c.args[0].L[0]
+		base := ex.newRef(st, "asslice")
+		t := zeroOf(sArr(bv64, sBV(8)))
+		for i := 0; i < 16; i++ {
+			hi := 127 - 8*i
+			t = store(t, bvLit(uint64(i), 64), fmt.Sprintf("((_ extract %d %d) %s)", hi, hi-7, a))
+		}
+		m := ex.byteMem(st)
+		st.heap[bytesKey()] = ex.def(bytesKey(), bytesSort(), store(m, base, t))
+		z := "((_ extract 129 128) " + a + ")"
+		ln := ex.def("asl", bv64, ite(eq(z, "#b00"), bvLit(0, 64), ite(eq(z, "#b01"), bvLit(4, 64), bvLit(16, 64))))
+		return Val{T: c.results().At(0).Type(), L: []string{ite(eq(z, "#b00"), "0", base), bvLit(0, 64), ln, ln}}
 	}
 
 	// ---- netip ----
@@ -582,4 +658,26 @@ func (ex *Exec) poolOf(fr *Frame, st *State, c *callCtx) (*PoolContract, string,
 	}
 	owner := ex.value(fr, st, fa.X)
 	return pc, owner.L[0], ST
+}
+
+
+// storeDecoded fills *ref (a value of type T) with unconstrained decoded content: scalar fields are arbitrary,
+// slices and nested pointers point to fresh memory (a decoder never aliases existing objects).
+func (ex *Exec) storeDecoded(st *State, T types.Type, ref string) {
+	v := ex.freshVal("decoded", T)
+	// references inside the decoded value are fresh allocations
+	ls := flatten(T)
+	for i, l := range ls {
+		if l.Sort == sInt && !strings.HasSuffix(l.Path, ".t") {
+			nr := ex.newRef(st, "decoded"+l.Path)
+			isNil := ex.fresh("decnil", sBool)
+			v.L[i] = ite(isNil, "0", nr)
+		}
+	}
+	savedActive := ex.modActive
+	if ex.isFreshTerm(ref) {
+		ex.modActive = false
+	}
+	ex.storeObj(st, T, ref, v)
+	ex.modActive = savedActive
 }
